@@ -2,7 +2,10 @@
 
 package pipeline
 
-import "github.com/buildkite/go-pipeline/ordered"
+import (
+	"github.com/buildkite/go-pipeline/ordered"
+	"gopkg.in/yaml.v3"
+)
 
 // C08 (root package part) - plugins written as one mapping keep mapping order;
 // the pipeline env block keeps document order.
@@ -82,4 +85,53 @@ func vpH_c08_nested_unknown() {
 	vpAssert(vpJLen(cfg) == 2 && vpJKey(cfg, 0) == k1 && vpJKey(cfg, 1) == k2, "a mapping nested in an unknown step keeps document order")
 	inner := vpJElem(cfg, 1)
 	vpAssert(vpJKey(inner, 0) == "z" && vpJKey(inner, 1) == "a", "mappings nested deeper keep document order")
+}
+
+func init() { vpRegister("c08_yaml_order", vpH_c08_yaml_order) }
+
+// vpYAMLFind returns the value node of key k in mapping node m (first occurrence) and its position.
+func vpYAMLFind(m *yaml.Node, k string) (*yaml.Node, int) {
+	for i := 0; i+1 < len(m.Content); i += 2 {
+		if m.Content[i].Value == k {
+			return m.Content[i+1], i / 2
+		}
+	}
+	return nil, -1
+}
+
+// document order through the YAML output (node data model): env block and
+// mappings nested in unknown steps
+func vpH_c08_yaml_order() {
+	k1, k2, k3 := vpStrUpTo(2, "a-c"), vpStrUpTo(2, "a-c"), vpStrUpTo(2, "a-c")
+	vpAssume(k1 != k2 && k1 != k3 && k2 != k3)
+	env := vpMapOf(k1, "1", k2, "2", k3, "3")
+	unknown := vpMapOf("type", "future", "cfg", vpMapOf(k3, "x", k1, vpMapOf("z", 1, "a", 2), k2, "y"))
+	doc := vpMapOf("env", env, "steps", []any{unknown})
+	p := new(Pipeline)
+	_ = p.UnmarshalOrdered(doc)
+	b, err := yaml.Marshal(p)
+	vpAssert(err == nil, "the pipeline marshals to YAML")
+	if err != nil {
+		return
+	}
+	var n yaml.Node
+	vpAssert(yaml.Unmarshal(b, &n) == nil && n.Kind == yaml.DocumentNode && len(n.Content) == 1, "the YAML form is one document")
+	root := n.Content[0]
+	envNode, _ := vpYAMLFind(root, "env")
+	vpAssert(envNode != nil && envNode.Kind == yaml.MappingNode && len(envNode.Content) == 6, "the env block is emitted as a mapping with every entry")
+	if envNode != nil && len(envNode.Content) == 6 {
+		vpAssert(envNode.Content[0].Value == k1 && envNode.Content[2].Value == k2 && envNode.Content[4].Value == k3, "YAML output keeps the env block in document order")
+	}
+	steps, _ := vpYAMLFind(root, "steps")
+	vpAssert(steps != nil && steps.Kind == yaml.SequenceNode && len(steps.Content) == 1, "one step")
+	if steps == nil || len(steps.Content) != 1 {
+		return
+	}
+	cfg, _ := vpYAMLFind(steps.Content[0], "cfg")
+	vpAssert(cfg != nil && len(cfg.Content) == 6, "the nested mapping is emitted with every entry")
+	if cfg != nil && len(cfg.Content) == 6 {
+		vpAssert(cfg.Content[0].Value == k3 && cfg.Content[2].Value == k1 && cfg.Content[4].Value == k2, "YAML output keeps mappings nested in unknown steps in document order")
+		inner := cfg.Content[3]
+		vpAssert(inner.Kind == yaml.MappingNode && len(inner.Content) == 4 && inner.Content[0].Value == "z" && inner.Content[2].Value == "a", "YAML output keeps deeper nested mappings in document order")
+	}
 }
